@@ -388,6 +388,16 @@ class Sim:
                 self.by_status.append(state.name)
             b.set_receive_callback(by_recv)
             b.set_status_callback(by_status)
+            # ... and a third client of the same type whose gateway is down: it stays inside connect(), between retries, for the
+            # whole session (its own business: every client has a connection life of its own)
+            if self.kind == "ebyte":
+                self.down_client = EByteNmea2000Gateway("sim-gateway-down", 8883)
+            elif self.kind == "actisense":
+                self.down_client = ActisenseNmea2000Gateway("sim-gateway-down", 8883)
+            elif self.kind == "yd":
+                self.down_client = YachtDevicesNmea2000Gateway("sim-gateway-down", 8883)
+            else:
+                self.down_client = WaveShareNmea2000Gateway("/dev/sim-serial-down")
         self.loop.step_observers.append(self._sample_state)
         self._sample_state(self.loop)
         return c
@@ -408,6 +418,20 @@ class Sim:
         if self.cb_style == "partial":
             import functools
             return functools.partial(fn)
+        if self.cb_style == "orphan-method":
+            # a bound method of an object that nothing else refers to: client.set_receive_callback(Handler(db).on_message).
+            # The registration is what keeps the handler alive.
+            import gc
+
+            class _Handler:
+                def __init__(self, f):
+                    self.f = f
+
+                async def on_event(self, x):
+                    return await self.f(x)
+            bound = _Handler(fn).on_event
+            gc.collect()
+            return bound
         return fn
 
     def _sample_state(self, _loop):
@@ -528,8 +552,19 @@ class Sim:
         with contextlib.suppress(Exception):
             await self.by_client.connect()
 
+    down_client = None
+    down_attempts = 0
+
+    async def _down_connect(self):
+        _OWNER.set("down")
+        with contextlib.suppress(Exception):
+            await self.down_client.connect()
+
     async def bystander_epilogue(self):
         from .checks.c13 import packet
+        if self.down_client is not None:
+            with contextlib.suppress(Exception):
+                await self.down_client.close()
         if self.by_conns and not self.by_conns[-1].lost and not self.by_conns[-1].closing:
             self.by_conns[-1].feed(packet(self.kind, 241))
         await asyncio.sleep(0.5)
@@ -541,6 +576,10 @@ class Sim:
 
     async def _open(self, serial_like):
         loop = self.loop
+        if _OWNER.get() == "down":
+            self.down_attempts += 1
+            await asyncio.sleep(0.001)
+            raise (serial.SerialException("could not open port /dev/sim-serial-down") if serial_like else ConnectionRefusedError(111, "Connection refused"))
         if _OWNER.get() == "bystander":
             from .checks.c13 import packet
             await asyncio.sleep(0.001)
@@ -613,6 +652,11 @@ class Sim:
         for t in asyncio.all_tasks(self.loop):
             if t.done() or t in exclude:
                 continue
+            try:
+                if t.get_context().get(_OWNER) in ("down", "bystander"):
+                    continue            # tasks of the other clients of the process: their own business
+            except Exception:  # noqa: BLE001
+                pass
             out.append(t)
         return out
 
@@ -680,6 +724,8 @@ def run_session(kind, scenario, client_kwargs=None, status_cb="ok", recv_cb="ok"
             box["hb"] = hb
             if bystander:
                 loop.create_task(sim._by_connect())
+                if sim.down_client is not None:
+                    loop.create_task(sim._down_connect())
             try:
                 await scenario(sim)
                 if bystander:
